@@ -2,9 +2,12 @@ from checks import rapid, plain, REPLAY
 
 CHECK = dict(
         pkg="c16", level="exploration",
-        rule="a request (platform with an architecture) and a list of 0-4 entries over the universe 4 OS x 31 architecture/variant "
-             "spellings (aliases included) x 4 OS versions + entry without platform + entry with empty platform; every permutation "
-             "of the list is evaluated inside one case. Non-trivial = the list holds >=2 entries the request can run (by the "
+        rule="a request (platform with an architecture; given as a struct, through platform.Parse of its string, or as the local "
+             "platform through 'local' / '<os>' / '<arch>') and a list of 0-4 entries (rapid: sometimes 5-10) over the universe 4 OS x 32 "
+             "architecture/variant spellings (aliases included; rapid adds amd64/v4 spellings and arm64/v9) x 4 OS versions + entry without "
+             "platform + empty platform + OS-only + architecture-only + unknown/unknown; every permutation of the list (beyond 4 entries: "
+             "all rotations and the reverse) is evaluated inside one case; 1/6 of the rapid cases add artifactType / annotation / "
+             "sort-annotation filters to the MatchOpt. Non-trivial = the list holds >=2 entries the request can run (by the "
              "reference model) that have different normal forms, i.e. different rank; distinct by (request, multiset of entries). "
              "Law sweeps and platform-string cases are counted as evaluations but never as non-trivial.",
         jobs=[REPLAY,
@@ -21,7 +24,8 @@ CHECK = dict(
                   "against an independent reference model of compatibility / exactness / preference; algebraic laws of the pairwise "
                   "ordering over all triples; exhaustive parse/print normal-form check of platform strings",
         level_text="Every outcome of descriptor.DescriptorListSearch (and of manifest.GetPlatformDesc on an OCI index and a Docker manifest "
-                   "list, and of ManifestGet/ManifestHead with WithManifestPlatform on an OCI layout) is judged by a reference model written "
+                   "list, built from the struct and parsed from JSON, and of ManifestGet/ManifestHead with WithManifestPlatform on an OCI layout or an "
+                   "in-memory registry, addressed by tag / digest / tag+digest, optionally below an outer index and with sha512 children) is judged by a reference model written "
                    "from the documentation: the chosen entry must be runnable, NotFound only when nothing is runnable, an exact match wins, "
                    "no runnable entry that is better by the code's own Better or by the documented preferences is passed over, and the "
                    "chosen platform is the same under every permutation. The sub-space 'lists of <=2 entries over the full universe' is "
